@@ -8,6 +8,7 @@ from mitmproxy import optmanager, exceptions
 TYS = {"bool": bool, "str": str, "int": int, "optstr": Optional[str], "optint": Optional[int], "seqstr": Sequence[str]}
 NEL = "\x85"
 TYNAME = {v: k for k, v in TYS.items()}
+MAXD = 2             # listeners issue nested updates at most this deep (= C44.maxDepth in the model)
 OTHER = 1.5          # a value of none of the option types (Atom.other in the model)
 
 # adversarial strings for the YAML round trip (quantifier: YAML-special words, quotes, newlines, unicode)
@@ -92,6 +93,11 @@ class World:
         self.keep = []            # strong references to the listeners
         self.calls = []           # listener calls of the current operation
         self.filters = {}         # listener id -> set of names | None
+        self.depth = 0            # nesting depth of listener-issued updates
+        self.acted = 0            # nested updates issued during the current operation
+        self.top_rejected = False # a depth-0 listener call has raised during the current operation
+        self.acts_after_reject = 0  # nested updates issued by depth-0 listeners after that (= during the rollback notification)
+        self.rollback_interrupted = False
 
     def types(self):
         """declared type of every option, read from the live OptManager in its dict order"""
@@ -105,21 +111,49 @@ class World:
         tys = self.types() if tys is None else tys
         return ";".join("%d=%s" % (n, show_val(tys[n], vals[n])) for n in vals) or "-"
 
-    def listener(self, lid, rule, direct):
+    def listener(self, lid, rule, direct, act=None):
+        """rule: when the listener raises OptionsError. act = {"when": rule, "kw": pairs}: when the condition holds (and the
+        listener does not reject) it issues a nested opts.update(**kw) — at most MAXD levels deep; TypeError/KeyError of
+        the nested update are swallowed, its OptionsError propagates (the listener thereby rejects)."""
         w = self
+
+        def holds(r, vals, updated):
+            k = r[0]
+            if k == "always": return True
+            if k == "eq": return r[1] in vals and vals[r[1]] == py(r[2])
+            if k == "upd": return nm(r[1]) in updated
+            return False
+
+        def raised():
+            if w.depth == 0:
+                if w.top_rejected: w.rollback_interrupted = True
+                w.top_rejected = True
 
         def verdict(updated):
             vals = w.values()
             tys = w.types()
-            w.calls.append({"who": lid, "updated": sorted(int(u[1:]) for u in updated), "vals": vals,
+            w.calls.append({"who": lid, "updated": sorted(int(u[1:]) for u in updated), "vals": vals, "depth": w.depth,
                             "shown": w.show_store(vals, tys),
                             "untyped": [n for n, x in vals.items() if not conforms(tys[n], x)]})
-            k = rule[0]
-            if k == "always": bad = True
-            elif k == "eq": bad = rule[1] in vals and vals[rule[1]] == py(rule[2])
-            elif k == "upd": bad = nm(rule[1]) in updated
-            else: bad = False
-            if bad: raise exceptions.OptionsError("listener %d rejects" % lid)
+            if holds(rule, vals, updated):
+                raised()
+                raise exceptions.OptionsError("listener %d rejects" % lid)
+            if act is not None and w.depth < MAXD and holds(act["when"], vals, updated):
+                kw = {nm(n): py(v) for n, v in act["kw"]}
+                w.acted += 1
+                if w.depth == 0 and w.top_rejected: w.acts_after_reject += 1
+                w.depth += 1
+                try:
+                    w.o.update(**kw)
+                except (TypeError, KeyError):
+                    pass
+                except exceptions.OptionsError:
+                    w.depth -= 1
+                    raised()
+                    w.depth += 1
+                    raise
+                finally:
+                    w.depth -= 1
         if direct:
             def f(updated): verdict(updated)
         else:
@@ -249,6 +283,12 @@ class Check(PropertyCheck):
                     ops.append({"op": "sub", "id": lid, "rule": self._rule(rng, decl), "names": ns})
                 else:
                     ops.append({"op": "conn", "id": lid, "rule": self._rule(rng, decl)})
+                if decl and rng.chance(0.35):
+                    # a component that derives other options: on a condition it issues a nested update
+                    when = self._rule(rng, decl)
+                    if when[0] == "never": when = ["upd", rng.pick(list(decl))]
+                    ops[-1]["act"] = {"when": when, "kw": kw()}
+                    if rng.chance(0.6): ops[-1]["rule"] = ["never"]
             elif k == "add": add()
             elif k == "set":
                 specs = []
@@ -260,13 +300,51 @@ class Check(PropertyCheck):
         if rng.chance(0.5): ops.append({"op": "save"})
         return {"ops": ops}
 
+    def _cascade(self, rng):
+        """a listener derives options B.. from A by a nested update; a later listener (sometimes) rejects A"""
+        tynames = list(TYS)
+        ops, decl = [], {}
+        for n in range(rng.randint(2, 4)):
+            ty = rng.pick(tynames); decl[n] = ty
+            ops.append({"op": "add", "n": n, "ty": ty, "v": self._val(rng, ty)})
+        a = rng.pick(list(decl)); va = self._val(rng, decl[a])
+        others = [n for n in decl if n != a]
+        lid = 0
+        order = ["act", "rej"] + (["watch"] if rng.chance(0.6) else []) + (["act2"] if rng.chance(0.3) else [])
+        if rng.chance(0.25): rng.shuffle(order)
+        for role in order:
+            lid += 1
+            direct = rng.chance(0.5)
+            if role in ("act", "act2"):
+                tgt = rng.sample(others, rng.randint(1, len(others))) if role == "act" else [rng.pick(list(decl))]
+                kw = [[n, self._val(rng, decl[n], not rng.chance(0.08))] for n in tgt]
+                when = ["eq", a, va] if rng.chance(0.7) else ["upd", rng.pick(list(decl))]
+                op = {"rule": ["never"], "act": {"when": when, "kw": kw}}
+                names = [a] if role == "act" else [rng.pick(list(decl))]
+            elif role == "rej":
+                op = {"rule": rng.weighted([(5, ["eq", a, va]), (2, ["upd", a]), (2, ["never"]), (1, ["eq", rng.pick(list(decl)), self._val(rng, decl[rng.pick(list(decl))])])])}
+                names = [a]
+            else:
+                op = {"rule": ["never"]}
+                names = [rng.pick(others)]
+            if direct: op.update({"op": "conn", "id": lid})
+            else: op.update({"op": "sub", "id": lid, "names": names})
+            ops.append(op)
+        for _ in range(rng.randint(1, 3)):
+            kw = [[a, va if rng.chance(0.8) else self._val(rng, decl[a])]]
+            if rng.chance(0.3):
+                n = rng.pick(others); kw.append([n, self._val(rng, decl[n])])
+            ops.append({"op": rng.pick(["upd", "upd", "updk", "updd"]), "kw": kw})
+        if rng.chance(0.3): ops.append({"op": "save"})
+        return {"ops": ops}
+
     def generate(self, rng, tier):
         # small-scope part: every adversarial string through the save/load path, as str / optional str / sequence element
         for s in STRS:
             for ty, v in (("str", ["s", s]), ("optstr", ["s", s]), ("seqstr", ["q", [["s", s], ["s", "x"]]])):
                 yield {"ops": [{"op": "add", "n": 0, "ty": ty, "v": self._dflt(ty)}, {"op": "upd", "kw": [[0, v]]}, {"op": "save"}]}
         while True:
-            yield self._history(rng)
+            yield self._cascade(rng) if rng.chance(0.25) else self._history(rng)
 
     @staticmethod
     def _dflt(ty):
@@ -280,6 +358,7 @@ class Check(PropertyCheck):
     def _do(self, w, op):
         o, k = w.o, op["op"]
         w.calls = []
+        w.depth, w.acted, w.top_rejected, w.acts_after_reject, w.rollback_interrupted = 0, 0, False, 0, False
         pre = w.values()
         pre_shown = w.show_store(pre)
         rec = {"op": k}
@@ -290,7 +369,7 @@ class Check(PropertyCheck):
                 if n in w.decl: w.decl[n] = (ty, v)
                 else: w.decl[n] = (ty, v)
         elif k in ("sub", "conn"):
-            f = w.listener(op["id"], op["rule"], k == "conn")
+            f = w.listener(op["id"], op["rule"], k == "conn", op.get("act"))
             if k == "sub":
                 out, exc = outcome(lambda: o.subscribe(f, [nm(n) for n in op["names"]]))
                 if out == "ok": w.filters[op["id"]] = set(op["names"])
@@ -324,11 +403,13 @@ class Check(PropertyCheck):
         rec.update({
             "out": out,
             # an OptionsError raised while the rollback notification was being delivered replaces the original one
-            "rollback_interrupted": bool(out == "OptionsError" and isinstance(getattr(exc, "__context__", None), exceptions.OptionsError)),
+            # a depth-0 listener raised again while the rollback notification was being delivered
+            "rollback_interrupted": bool(out == "OptionsError" and w.rollback_interrupted),
+            "acted": w.acted, "acts_after_reject": w.acts_after_reject,
             "pre": pre_shown, "post": w.show_store(post),
             "untyped": [n for n in w.decl if not conforms(w.decl[n][0], post[n])],
             "untyped_seen": [c["who"] for c in w.calls if c["untyped"]],
-            "calls": [{"who": c["who"], "updated": c["updated"], "shown": c["shown"]} for c in w.calls],
+            "calls": [{"who": c["who"], "updated": c["updated"], "shown": c["shown"], "depth": c["depth"]} for c in w.calls],
             "filters": {str(i): (None if f is None else sorted(f)) for i, f in w.filters.items()},
             "post_ok": all(n in post and post[n] == x and type(post[n]) is type(x) for n, x in rec.get("want", {}).items())
                        and all(post[n] == pre[n] for n in pre if n not in rec.get("want", {})) if "want" in rec else None,
@@ -379,35 +460,49 @@ class Check(PropertyCheck):
                 continue
             if r["out"] in ("TypeError", "OptionsError"):
                 # "a rejected update leaves every option at its previous value and listeners end up observing that restored state"
-                if r["post"] != r["pre"]:
+                # (what a listener itself assigns in reaction to the rollback notification is a new, accepted update: the
+                #  comparison with the previous values is made when no listener issued an update after the rejection)
+                if r["acts_after_reject"] == 0 and r["post"] != r["pre"]:
                     fails.append("rollback: op %d %s rejected with %s but options changed %s -> %s" % (i, k, r["out"], r["pre"], r["post"]))
                 last = {}
                 for c in r["calls"]: last[c["who"]] = c["shown"]
-                stale = sorted(w for w, s in last.items() if s != r["pre"])
+                stale = sorted(w for w, s in last.items() if s != r["post"])
                 if stale:
-                    fails.append("restored-view[%s]: op %d rejected, listeners %s last saw a state other than the restored one"
-                                 % ("rollback-interrupted" if r["rollback_interrupted"] else "delivered", i, stale))
+                    top = {c["who"] for c in r["calls"] if c["depth"] == 0}
+                    tag = ("rollback-interrupted" if r["rollback_interrupted"] else
+                           "nested-not-renotified" if not (set(stale) & top) else
+                           "acts-after-reject" if r["acts_after_reject"] else "delivered")
+                    # after a listener-issued update following the rejection, a listener not subscribed to the names that
+                    # update assigned legitimately keeps its older view: not judged
+                    if tag != "acts-after-reject":
+                        fails.append("restored-view[%s]: op %d rejected, listeners %s last saw a state other than the final (restored) one"
+                                     % (tag, i, stale))
             elif k in ("upd", "updk", "updd"):
                 # "an accepted update notifies listeners with the names of the assigned options"
-                if r["post_ok"] is False:
-                    fails.append("assign: op %d accepted but options are not previous ⊕ assigned values" % i)
+                top = [c for c in r["calls"] if c["depth"] == 0]
                 want = []
                 if r["assigned"]:
                     for lid, flt in r["filters"].items():
                         if flt is None or set(flt) & set(r["assigned"]): want.append(int(lid))
-                got = [c["who"] for c in r["calls"]]
+                got = [c["who"] for c in top]
                 if sorted(got) != sorted(want):
                     fails.append("notify: op %d assigned %s: listeners called %s, expected %s" % (i, r["assigned"], sorted(got), sorted(want)))
-                for c in r["calls"]:
+                for c in top:
                     if c["updated"] != r["assigned"]:
                         fails.append("notify: op %d listener %d got names %s, assigned were %s" % (i, c["who"], c["updated"], r["assigned"]))
-                    if c["shown"] != r["post"]:
-                        fails.append("notify: op %d listener %d saw %s, not the assigned state %s" % (i, c["who"], c["shown"], r["post"]))
+                if r["acted"] == 0:
+                    # no listener changed anything on the way: the result is previous ⊕ assigned, and that is what everybody saw
+                    if r["post_ok"] is False:
+                        fails.append("assign: op %d accepted but options are not previous ⊕ assigned values" % i)
+                    for c in top:
+                        if c["shown"] != r["post"]:
+                            fails.append("notify: op %d listener %d saw %s, not the assigned state %s" % (i, c["who"], c["shown"], r["post"]))
         return fails
 
     def known(self, case, obs, failure):
         if failure.startswith("roundtrip[nel]"): return "F-C44b"
         if failure.startswith("restored-view[rollback-interrupted]"): return "F-C44c"
+        if failure.startswith("restored-view[nested-not-renotified]"): return "F-C44d"
         return None
 
     # ---------------------------------------------------------------- model tie
@@ -416,8 +511,8 @@ class Check(PropertyCheck):
         for op in case["ops"]:
             k = op["op"]
             if k == "add": lines.append("add %d %s %s" % (op["n"], op["ty"], wire_val(op["v"])))
-            elif k == "sub": lines.append("sub %d %s %s" % (op["id"], self._wire_rule(op["rule"]), ",".join(map(str, op["names"])) or "-"))
-            elif k == "conn": lines.append("conn %d %s" % (op["id"], self._wire_rule(op["rule"])))
+            elif k == "sub": lines.append("sub %d %s %s %s" % (op["id"], self._wire_rule(op["rule"]), ",".join(map(str, op["names"])) or "-", self._wire_act(op)))
+            elif k == "conn": lines.append("conn %d %s %s" % (op["id"], self._wire_rule(op["rule"]), self._wire_act(op)))
             elif k in ("upd", "updk", "updd"):
                 if len({n for n, _ in op["kw"]}) != len(op["kw"]): raise Skip()
                 lines.append("%s %s" % (k, ";".join("%d=%s" % (n, wire_val(v)) for n, v in op["kw"]) or "-"))
@@ -425,6 +520,12 @@ class Check(PropertyCheck):
                 lines.append("set %d %s" % (op["defer"], ";".join(str(n) if v is None else "%d=%s" % (n, hexs(v)) for n, v in op["specs"]) or "-"))
             else: lines.append(k)
         return lines
+
+    def _wire_act(self, op):
+        a = op.get("act")
+        if a is None: return "-"
+        if len({n for n, _ in a["kw"]}) != len(a["kw"]): raise Skip()
+        return "%s/%s" % (self._wire_rule(a["when"]), ";".join("%d=%s" % (n, wire_val(v)) for n, v in a["kw"]) or "-")
 
     @staticmethod
     def _wire_rule(r):
@@ -466,6 +567,18 @@ class Check(PropertyCheck):
             if r["op"] == "save" and r["nel"]: out.append("save:nel")
             if r["op"] != "save" and r["out"] == "OptionsError" and r["calls"]: out.append("rejected-by-listener")
         return out
+
+    def shrink_candidates(self, case):
+        # drop whole operations, then single pairs of an update; never cut inside a rule or a value
+        ops = case["ops"]
+        for i in range(len(ops)):
+            yield {"ops": ops[:i] + ops[i + 1:]}
+        for i, op in enumerate(ops):
+            if op["op"] in ("upd", "updk", "updd") and len(op["kw"]) > 1:
+                for j in range(len(op["kw"])):
+                    yield {"ops": ops[:i] + [dict(op, kw=op["kw"][:j] + op["kw"][j + 1:])] + ops[i + 1:]}
+            if "act" in op:
+                yield {"ops": ops[:i] + [{k: v for k, v in op.items() if k != "act"}] + ops[i + 1:]}
 
     def neighbours(self, case, rng):
         ops = case["ops"]
